@@ -16,6 +16,24 @@ fn main() {
         std::process::exit(2);
     }
     let opts = common::Opts::parse(&args[1..]);
+    let stream = if opts.extra.first().map(|s| s.as_str()) == Some("header") { "header" } else { "epoch" };
+    // every corpus file is offered to every stream: a file declares its stream in a comment line
+    // `# stream: <name>` (or bin/check's `# property C07 stream <name> ...`); foreign files are skipped
+    if let Some(rp) = &opts.replay {
+        let txt = std::fs::read_to_string(rp).expect("read replay");
+        let declared = txt.lines().find_map(|l| {
+            let l = l.trim();
+            l.strip_prefix("# stream: ").map(|s| s.trim().to_string()).or_else(|| {
+                l.strip_prefix("# property C07 stream ").map(|s| s.split_whitespace().next().unwrap_or("").to_string())
+            })
+        });
+        if let Some(d) = declared {
+            if d != stream {
+                common::Out::new(&opts.out).finish("(corpus file of another stream: skipped)");
+                return;
+            }
+        }
+    }
     match opts.extra.first().map(|s| s.as_str()) {
         Some("header") => header::run(&opts),
         _ => c07::run(&opts),
